@@ -74,8 +74,11 @@ package cred
 //@   ensures isnil(result) ==> s.cachedContent == string(b)
 
 // A nil result means every write, the sync and the close of the file succeeded.
+// A crash between creating the temporary file and renaming it leaves that file behind: the next save must
+// still go through, so the file is opened for writing with create-or-truncate and never exclusively.
 //@ func writeFileSync
 //@   requires !$ioFailed
+//@   callsite OpenFile: arg0 == name && arg1 & os.O_EXCL == 0 && arg1 & os.O_CREATE != 0 && arg1 & os.O_TRUNC != 0 && arg1 & os.O_APPEND == 0 && arg1 & 3 == os.O_WRONLY
 //@   modifies $ioFailed
 //@   ensures isnil(result) ==> !$ioFailed
 
